@@ -186,6 +186,8 @@ pub struct ExecResult {
 static COMPLETED: Mutex<Vec<(usize, usize)>> = Mutex::new(Vec::new());
 
 pub struct ExecOpts {
+    /// C10: after the execution, drain and probe (base-order get, targeted get of a free frame)
+    pub probe: bool,
     pub keep_ops: bool,
     pub crash: bool,
     /// only probe every n-th write
@@ -364,8 +366,9 @@ pub fn execute(scn: &Scenario, strat: &mut Strategy, opts: &ExecOpts, out_setup:
                 break;
             }
             if steps.len() >= opts.max_steps {
+                // a call that does not end: make every still running call unwind at its next access
                 runaway = true;
-                hook::release_all();
+                hook::abort_all();
                 break;
             }
             let ids: Vec<usize> = enabled.iter().map(|e| e.0).collect();
@@ -446,6 +449,21 @@ pub fn execute(scn: &Scenario, strat: &mut Strategy, opts: &ExecOpts, out_setup:
     hook::set_mode(hook::OFF);
     let obs = w.obs(true);
     log.push(Rec::Ev(json!({"ev":"obs","obs":obs})));
+    if opts.probe && !runaway {
+        // C10 on the quiescent state this interleaving reached: drain, then a base-order allocation and a
+        // targeted allocation of a frame that is free right now
+        let mut probes = vec![Op::Drain, Op::Get(0, 0, None, None)];
+        let free_now: Vec<usize> = w.last.iter().enumerate().filter(|(_, f)| **f).map(|(i, _)| i).collect();
+        if free_now.len() > 1 {
+            probes.push(Op::Drain);
+            probes.push(Op::Get(0, 0, Some(0), Some(free_now[free_now.len() / 2])));
+        }
+        for op in probes {
+            let res = exec(w.a(), &op);
+            let obs = w.obs(false);
+            log.push(Rec::Ev(merge(merge(op.to_json(), res), json!({"ev":"sc","obs":obs}))));
+        }
+    }
     let solo = if let Strategy::Solo(_, t) = strat {
         Some((solo_steps, if runaway { "budget".to_string() } else { "done".to_string() }, *t))
     } else {
@@ -564,7 +582,16 @@ impl<'a> Explore<'a> {
             evs.push(e);
         }
         if r.runaway {
-            // a call that never returns on its own schedule: reported through a solo event by the caller
+            // the step budget was exhausted.  If a single thread took all of the last steps, its call does not
+            // finish although nobody interferes: that is what C21 forbids, reported as a solo event.
+            let n = r.steps.len();
+            let tail = &r.steps[n.saturating_sub(300)..];
+            if let Some(t) = tail.first().map(|s| s.chosen) {
+                if tail.iter().all(|s| s.chosen == t) {
+                    self.out.push(json!({"ev":"solo","t":t,"at":n - tail.len(),"steps":tail.len(),"res":"budget","msg":"",
+                        "sched": r.steps.iter().take(n - tail.len()).map(|s| s.chosen).collect::<Vec<_>>()}));
+                }
+            }
             return r;
         }
         let h = hash_events(&evs);
@@ -626,7 +653,7 @@ impl<'a> Explore<'a> {
 
     /// C21: at every scheduling point of the given base schedule, run each in-flight call alone
     pub fn solo_points(&mut self, base: &[Step], bound_steps: usize, stride: usize) -> usize {
-        let opts = ExecOpts { keep_ops: false, crash: false, crash_every: 1, max_steps: base.len() + bound_steps + 64 };
+        let opts = ExecOpts { probe: false, keep_ops: false, crash: false, crash_every: 1, max_steps: base.len() + bound_steps + 64 };
         let chosen: Vec<usize> = base.iter().map(|s| s.chosen).collect();
         let mut n = 0;
         let mut p = 0;
